@@ -65,7 +65,7 @@ def futChar (f : Fut) : Char :=
 def digest (s : St) : String :=
   let ids := (s.ids.foldr insSorted []).map (fun e => s!"{e.1.1}:{e.1.2}={e.2}")
   let cs := List.range s.n
-  let act := (cs.filter (fun c => (s.caches c).task.isSome)).map toString
+  let act := (cs.filter (fun c => active s c)).map toString
   let futs := cs.map (fun c => s!"{c}:" ++ String.ofList ((s.caches c).futs.map futChar))
   "ids=" ++ Proto.showStrList ids ++ " act=" ++ Proto.showStrList act ++ " futs=" ++ Proto.showStrList futs
 
